@@ -1,6 +1,8 @@
 import Grexv.Model.RegExp
 import Grexv.Lemmas.Sort
 import Grexv.Lemmas.EndToEnd
+import Grexv.Lemmas.ThreshS4
+import Grexv.Lemmas.ThreshR
 
 /-!
 # C13 — repetition thresholds are honoured; braces appear only on request (S4 level)
@@ -14,140 +16,12 @@ set_option linter.unusedVariables false
 namespace Grexv.Props.C13
 open Grexv
 
-mutual
-/-- the threshold contract of one grapheme, including its nested repetitions -/
-def ok (cfg : Config) : Grapheme → Bool
-  | .mk chars reps mn mx =>
-    ((mn == 1 && mx == 1) || (decide (mx > cfg.minRep) && decide (chars.length ≥ cfg.minLen) && mn == mx))
-      && okL cfg reps
-def okL (cfg : Config) : List Grapheme → Bool
-  | [] => true
-  | g :: gs => ok cfg g && okL cfg gs
-end
-
-theorem okL_iff (cfg : Config) (l : List Grapheme) : okL cfg l = true ↔ ∀ g ∈ l, ok cfg g = true := by
-  induction l with
-  | nil => simp [okL]
-  | cons g gs ih => simp [okL, ih]
-
-/-- every range produced by `create_ranges_of_repetitions` stands for more than `minRep` repetitions -/
-theorem createRanges_count (cfg : Config) (m : SubMap) (r : RepRange) (h : r ∈ createRanges cfg m) :
-    (r.1.2 - r.1.1) / r.2.length > cfg.minRep := by
-  simp only [createRanges, List.mem_flatMap, List.mem_map, List.mem_filter, decide_eq_true_eq] at h
-  obtain ⟨⟨p, is⟩, _, rr, ⟨_, hc⟩, rfl⟩ := h
-  exact hc
-
-theorem coalesceOverlapAux_subset (cur : RepRange) (l : List RepRange) :
-    ∀ r ∈ coalesceOverlapAux cur l, r = cur ∨ r ∈ l := by
-  induction l generalizing cur with
-  | nil => simp [coalesceOverlapAux]
-  | cons y rest ih =>
-    intro r hr
-    unfold coalesceOverlapAux at hr
-    split at hr
-    · rcases ih cur r hr with h | h
-      · exact Or.inl h
-      · exact Or.inr (List.mem_cons_of_mem _ h)
-    · simp only [List.mem_cons] at hr
-      rcases hr with h | h
-      · exact Or.inl h
-      · rcases ih y r h with h' | h'
-        · exact Or.inr (by simp [h'])
-        · exact Or.inr (List.mem_cons_of_mem _ h')
-
-theorem coalesceOverlap_subset (l : List RepRange) : ∀ r ∈ coalesceOverlap l, r ∈ l := by
-  cases l with
-  | nil => simp [coalesceOverlap]
-  | cons x xs =>
-    intro r hr
-    rcases coalesceOverlapAux_subset x xs r hr with h | h
-    · simp [h]
-    · exact List.mem_cons_of_mem _ h
-
-theorem coalesceRepetitions_subset (l : List RepRange) : ∀ r ∈ coalesceRepetitions l, r ∈ l := by
-  intro r hr
-  have := coalesceOverlap_subset _ r hr
-  exact (mem_sortBy _ _ _).mp this
-
-/-- the splice loop only ever inserts graphemes that honour both thresholds -/
-theorem spliceLoop_ok (cfg : Config) (rs : List RepRange) (acc : Cluster)
-    (hr : ∀ r ∈ rs, (r.1.2 - r.1.1) / r.2.length > cfg.minRep)
-    (hacc : ∀ g ∈ acc, ok cfg g = true) :
-    ∀ g ∈ spliceLoop cfg rs acc, ok cfg g = true := by
-  induction rs generalizing acc with
-  | nil => simpa [spliceLoop] using hacc
-  | cons r rest ih =>
-    obtain ⟨rng, substr⟩ := r
-    have hrest : ∀ r ∈ rest, (r.1.2 - r.1.1) / r.2.length > cfg.minRep := fun x hx => hr x (List.mem_cons_of_mem _ hx)
-    unfold spliceLoop
-    split
-    · exact hacc
-    · split
-      · exact ih acc hrest hacc
-      · rename_i hlen
-        apply ih _ hrest
-        intro g hg
-        simp only [splice, List.mem_append, List.mem_cons, List.mem_nil_iff, or_false] at hg
-        rcases hg with (hg | hg) | hg
-        · exact hacc g (List.mem_of_mem_take hg)
-        · subst hg
-          have hc := hr (rng, substr) (List.mem_cons_self)
-          simp only [] at hc
-          have : substr.length ≥ cfg.minLen := by omega
-          simp [ok, okL, hc, this]
-        · exact hacc g (List.mem_of_mem_drop hg)
-
-/-- plain graphemes (what `GraphemeCluster::from` and `Grapheme::from` produce) meet the contract -/
-theorem ok_ofStr (cfg : Config) (s : Str) : ok cfg (Grapheme.ofStr s) = true := by simp [Grapheme.ofStr, ok, okL]
-
-/-- `convert_repetitions` at any recursion depth -/
-theorem convertRepsAux_ok (cfg : Config) (fuel : Nat) :
-    ∀ (gs : Cluster), (∀ g ∈ gs, ok cfg g = true) → (∀ g ∈ gs, g.reps = []) →
-      ∀ out, convertRepsAux cfg fuel gs = some out → ∀ g ∈ out, ok cfg g = true := by
-  induction fuel with
-  | zero => intro gs _ _ out h; simp [convertRepsAux] at h
-  | succ f ih =>
-    intro gs hgs hreps out h
-    simp only [convertRepsAux] at h
-    split at h
-    · simp at h
-    · simp only [Option.some.injEq] at h
-      subst h
-      intro g hg
-      simp only [nestWith, List.mem_map] at hg
-      obtain ⟨g0, hg0, rfl⟩ := hg
-      have hr : ∀ r ∈ coalesceRepetitions (createRanges cfg (collectRepeated (gs.map Grapheme.value))),
-          (r.1.2 - r.1.1) / r.2.length > cfg.minRep :=
-        fun r hr => createRanges_count cfg _ r (coalesceRepetitions_subset _ r hr)
-      have hok0 := spliceLoop_ok cfg _ gs hr hgs g0 hg0
-      -- the grapheme keeps its (chars, min, max); its nested repetitions come from the recursive call
-      cases g0 with
-      | mk chars reps mn mx =>
-        simp only [ok, Bool.and_eq_true] at hok0 ⊢
-        refine ⟨hok0.1, ?_⟩
-        simp only [Grapheme.chars, Grapheme.reps, Grapheme.min, Grapheme.max]
-        cases hrec : convertRepsAux cfg f (chars.map Grapheme.ofStr) with
-        | none => simpa [Option.getD] using hok0.2
-        | some out =>
-          simp only [Option.getD]
-          rw [okL_iff]
-          apply ih (chars.map Grapheme.ofStr) _ _ out hrec
-          · intro g hg; simp at hg; obtain ⟨s, _, rfl⟩ := hg; exact ok_ofStr cfg s
-          · intro g hg; simp at hg; obtain ⟨s, _, rfl⟩ := hg; rfl
-
 /-- **C13 (thresholds)** for every cluster of plain graphemes and all thresholds, everything
 `convert_repetitions` produces honours `minimum_repetitions` and `minimum_substring_length` -/
 theorem convertRepetitions_ok (cfg : Config) (cl : Cluster)
     (hplain : ∀ g ∈ cl, ∃ s, g = Grapheme.mk s [] 1 1) :
-    ∀ g ∈ convertRepetitions cfg cl, ok cfg g = true := by
-  have h1 : ∀ g ∈ cl, ok cfg g = true := by
-    intro g hg; obtain ⟨s, rfl⟩ := hplain g hg; simp [ok, okL]
-  have h2 : ∀ g ∈ cl, g.reps = [] := by
-    intro g hg; obtain ⟨s, rfl⟩ := hplain g hg; rfl
-  unfold convertRepetitions
-  cases h : convertRepsAux cfg (cl.length + 1) cl with
-  | none => simpa [Option.getD] using h1
-  | some out => simpa [Option.getD] using convertRepsAux_ok cfg _ cl h1 h2 out h
+    ∀ g ∈ convertRepetitions cfg cl, ok cfg g = true :=
+  convertRepetitions_ok' cfg cl hplain
 
 /-- **C13 (no braces without -r)** without repetition conversion every grapheme that reaches the
 trie is a plain `(1,1)` grapheme: `Display for Grapheme` has no counted branch to take -/
@@ -283,5 +157,38 @@ theorem no_counted_quantifier (cap esc ns ne : Bool) (e : Expr) (hwf : e.WF) :
   · unfold postA at hp; split at hp
     · simp at hp
     · simp only [List.mem_singleton] at hp; subst hp; trivial
+
+/-! ## with `-r`: the thresholds in the pattern the regex crate reads -/
+
+/-- **C13 with `-r`, at the level of the pattern the regex crate builds, all inputs** (`-r` with positive thresholds; every subset of the
+class options, with or without `-i`, capturing groups, `-e`; any anchors — with both disabled whichever of its three candidates
+`RegExp::from` keeps; plain printing; stored test cases of at most 1000 graphemes): the returned text is accepted by the model of
+`Regex::new`, and in the compiled pattern every repetition operator is `?` or a counted repetition `{n}` / `{m,n}` whose upper count is
+**strictly greater than `minimum_repetitions`** and whose operand **matches no string shorter than `minimum_substring_length`**
+(`Pat.minLen_le`: `Pat.minLen` is a lower bound on the length of every string the operand denotes).  Chain: S4 keeps the contract at every
+nesting depth (`convertRepetitions_ok`), the widening merge of the trie keeps its range form (`okW_widen`), minimisation only drops
+edges, `union`/`concatenate`/the elimination only take literal clusters apart and put them together (`Lemmas/WFExprQ.lean`, for an
+arbitrary predicate on graphemes), and the parser reads each counted grapheme as one repetition node over its unit (`gThresh`). -/
+theorem thresholds_in_pattern (cfg : Config) (hp : RepPrintNA cfg) (env : Env) (ws : List Str) (st : Stages)
+    (h : regExpFrom cfg env ws = .ok st) (hseg : ∀ w ∈ storedCases cfg env ws, SegOK env w)
+    (hlen : ∀ w ∈ storedCases cfg env ws, (clusterOfPieces (env.segOf w)).length ≤ 1000) (hws : ws ≠ []) :
+    ∃ P, Spec.parse (fmtRegExp cfg st.finalAst) = some (⟨cfg.ci, false⟩, P) ∧ Pat.Thresh cfg.minRep cfg.minLen P :=
+  rep_thresholds cfg hp env ws st h hseg
+    (fun w hw => by have := hlen w hw; rwa [clusterOfPieces_eq, List.length_map] at this) hws
+
+/-- what the contract says about what is matched: the operand of a counted repetition matches nothing shorter than the bound -/
+theorem operand_length (i : Bool) (p : Spec.Pat) (s : Str) (h : Spec.Pat.denC i p s) : Grexv.Pat.minLen p ≤ s.length := Grexv.Pat.minLen_le i p s h
+
+/-- the contract is not vacuous: `(?:ab){3}` honours thresholds (2, 2) and violates (3, 2) and (2, 3) -/
+example :
+    let P := Spec.Pat.rep (.grp false (.cat (.chr 97) (.chr 98))) 3 (some 3) true
+    Pat.Thresh 2 2 P ∧ ¬ Pat.Thresh 3 2 P ∧ ¬ Pat.Thresh 2 3 P := by
+  refine ⟨⟨Or.inr ⟨3, rfl, by decide, by decide⟩, trivial, trivial⟩, ?_, ?_⟩
+  · rintro ⟨h | ⟨n, hn, h1, _⟩, _⟩
+    · exact absurd h.1 (by decide)
+    · simp only [Option.some.injEq] at hn; omega
+  · rintro ⟨h | ⟨n, hn, _, h2⟩, _⟩
+    · exact absurd h.1 (by decide)
+    · simp [Pat.minLen] at h2
 
 end Grexv.Props.C13
